@@ -6,15 +6,15 @@ checks on every run).
 usage: regress_validate.py [tape commit]...   (default: the table below)"""
 import json, subprocess, sys, os
 env = dict(os.environ, GOFLAGS="-mod=mod", GOPROXY="off", GOSUMDB="off", GOTOOLCHAIN="local")
+# Tapes whose violation is meanwhile prevented by a second, later fix as well (or whose
+# schedule was shifted by a later change of the same function) are not listed: they
+# still replay clean on HEAD, but reverting one fix no longer brings the violation back.
 TABLE = [
  ("regress/C05/zombie-connection-after-shutdown.json", "de0edc7"),
  ("regress/C17/resolved-during-start-not-reported.json", "fef7e2e"),
  ("regress/C11/dead-connection-registered-4fdf982.json", "4fdf982"),
  ("regress/C05/dead-connection-registered-4fdf982.json", "4fdf982"),
- ("regress/C10/trusted-after-unregister-e73d119.json", "e73d119"),
  ("regress/C10/cancel-in-init-phase-7f3aedc.json", "7f3aedc"),
- ("regress/C04/approve-continues-after-transport-error.json", "0f580dc"),
- ("regress/C04/rejected-after-error-state.json", "0f580dc"),
  ("regress/C11/setup-after-end-3436f10.json", "3436f10"),
  ("regress/C18/cancel-on-completed-connection.json", "7123785"),
  ("regress/C01/hello-ok-after-unregister-511ee29.json", "511ee29"),
